@@ -118,6 +118,9 @@ def generate(seed, tier="quick"):
     requests = [request]
     if rnd.random() < 0.3:
         requests.append(second_validation(rnd, request))
+        if rnd.random() < 0.4:
+            for both in requests:
+                both["op"]["same_objects"] = True
     return {"property": PROP_ID, "seed": seed, "profile": profile, "world": world, "requests": requests}
 
 
